@@ -15,7 +15,7 @@ use rustrtc::transports::dtls::{Certificate, fingerprint, generate_certificate};
 use std::collections::VecDeque;
 
 #[derive(Clone, Debug, PartialEq)]
-pub enum Act { Drop, Dup, Swap, FlipBody(u16), CertOther, CertEmpty, CertGarbage, Resign, CertOtherResign, FlipSig, FlipKey, FlipRandom, StripExt(u16), FlipCipher, Fragment(u16), FragDupMid(u16), FragReorder(u16), SeqMinus1, Impostor, ImpostorChain, ExtraCert, RefragTailLost(u16), RefragEvery3(u16), PreInject(u8), ForgeFinishedBad, InsertCert, RefragOverlap(u16) }
+pub enum Act { Drop, Dup, Swap, FlipBody(u16), CertOther, CertEmpty, CertGarbage, Resign, CertOtherResign, FlipSig, FlipKey, FlipRandom, StripExt(u16), FlipCipher, Fragment(u16), FragDupMid(u16), FragReorder(u16), SeqMinus1, Impostor, ImpostorChain, ExtraCert, RefragTailLost(u16), RefragEvery3(u16), PreInject(u8), ForgeFinishedBad, InsertCert, RefragOverlap(u16), InsertHs(u8), PreInjectHs(u8), CloseClient, CloseServer }
 
 #[derive(Clone, Debug, PartialEq)]
 pub struct Rule { pub from_client: bool, pub typ: u8, pub act: Act }
@@ -32,8 +32,9 @@ impl Script {
             Act::FlipRandom => "fliprandom".into(), Act::StripExt(e) => format!("strip{e}"), Act::FlipCipher => "flipcipher".into(),
             Act::Fragment(n) => format!("frag{n}"), Act::FragDupMid(n) => format!("fragdup{n}"), Act::FragReorder(n) => format!("fragreorder{n}"),
             Act::SeqMinus1 => "seqminus1".into(), Act::Impostor => "impostor".into(), Act::ImpostorChain => "impostorchain".into(),
-            Act::ExtraCert => "extracert".into(), Act::RefragTailLost(n) => format!("refragtaillost{n}"), Act::RefragEvery3(n) => format!("refragevery{n}"), Act::RefragOverlap(n) => format!("refragoverlap{n}"),
-            Act::PreInject(ct) => format!("preinject{ct}"), Act::ForgeFinishedBad => "forgefinishedbad".into(), Act::InsertCert => "insertcert".into() })).collect();
+            Act::ExtraCert => "extracert".into(), Act::RefragTailLost(n) => format!("refragtaillost{n}"), Act::RefragEvery3(n) => format!("refragevery{n}"),
+            Act::PreInject(ct) => format!("preinject{ct}"), Act::ForgeFinishedBad => "forgefinishedbad".into(), Act::InsertCert => "insertcert".into(), Act::InsertHs(t) => format!("inserths{t}"), Act::PreInjectHs(t) => format!("prehs{t}"),
+            Act::CloseClient => "closeclient".into(), Act::CloseServer => "closeserver".into(), Act::RefragOverlap(n) => format!("refragoverlap{n}") })).collect();
         format!("ce={} se={} {}", self.ce, self.se, if rs.is_empty() { "-".into() } else { rs.join(";") })
     }
     pub fn parse(s: &str) -> Script {
@@ -47,10 +48,10 @@ impl Script {
             let num = |pre: &str| a[pre.len()..].parse::<u16>().unwrap();
             let act = match a { "drop" => Act::Drop, "dup" => Act::Dup, "swap" => Act::Swap, "other" => Act::CertOther, "empty" => Act::CertEmpty,
                 "garbage" => Act::CertGarbage, "resign" => Act::Resign, "otherresign" => Act::CertOtherResign, "flipsig" => Act::FlipSig,
-                "flipkey" => Act::FlipKey, "fliprandom" => Act::FlipRandom, "flipcipher" => Act::FlipCipher, "seqminus1" => Act::SeqMinus1, "forgefinishedbad" => Act::ForgeFinishedBad, "insertcert" => Act::InsertCert, "impostor" => Act::Impostor, "impostorchain" => Act::ImpostorChain, "extracert" => Act::ExtraCert,
+                "flipkey" => Act::FlipKey, "fliprandom" => Act::FlipRandom, "flipcipher" => Act::FlipCipher, "seqminus1" => Act::SeqMinus1, "forgefinishedbad" => Act::ForgeFinishedBad, "insertcert" => Act::InsertCert, "closeclient" => Act::CloseClient, "closeserver" => Act::CloseServer, "impostor" => Act::Impostor, "impostorchain" => Act::ImpostorChain, "extracert" => Act::ExtraCert,
                 x if x.starts_with("flipbody") => Act::FlipBody(num("flipbody")), x if x.starts_with("strip") => Act::StripExt(num("strip")),
                 x if x.starts_with("preinject") => Act::PreInject(num("preinject") as u8),
-                x if x.starts_with("refragtaillost") => Act::RefragTailLost(num("refragtaillost")), x if x.starts_with("refragevery") => Act::RefragEvery3(num("refragevery")), x if x.starts_with("refragoverlap") => Act::RefragOverlap(num("refragoverlap")),
+                x if x.starts_with("refragtaillost") => Act::RefragTailLost(num("refragtaillost")), x if x.starts_with("refragevery") => Act::RefragEvery3(num("refragevery")), x if x.starts_with("refragoverlap") => Act::RefragOverlap(num("refragoverlap")), x if x.starts_with("inserths") => Act::InsertHs(num("inserths") as u8), x if x.starts_with("prehs") => Act::PreInjectHs(num("prehs") as u8),
                 x if x.starts_with("fragdup") => Act::FragDupMid(num("fragdup")), x if x.starts_with("fragreorder") => Act::FragReorder(num("fragreorder")),
                 x if x.starts_with("frag") => Act::Fragment(num("frag")), x => panic!("bad act {x}") };
             rules.push(Rule { from_client: p[0] == "c>s", typ: p[1].parse().unwrap(), act });
@@ -140,7 +141,7 @@ fn apply(act: &Act, dg: &[u8], atk: &Attacker, randoms: &(Vec<u8>, Vec<u8>), occ
                 b.truncate(i); b.extend_from_slice(&(out.len() as u16).to_be_bytes()); b.extend_from_slice(&out);
             } })],
         Act::FlipCipher => { let mut d = dg.to_vec(); let n = d.len(); d[n - 20] ^= 1; vec![d] }
-        Act::Impostor | Act::ImpostorChain | Act::ExtraCert | Act::ForgeFinishedBad => vec![dg.to_vec()],
+        Act::Impostor | Act::ImpostorChain | Act::ExtraCert | Act::ForgeFinishedBad | Act::InsertHs(_) | Act::PreInjectHs(_) | Act::CloseClient | Act::CloseServer => vec![dg.to_vec()], // handled by the proxy loop
         Act::InsertCert => {
             // a second Certificate message (the attacker's certificate), in sequence right after the genuine one;
             // the proxy renumbers the rest of the flight (see `seq_shift`)
@@ -273,11 +274,20 @@ pub async fn run_script_ticks(sc: &Script, max_ticks: u32) -> Option<Outcome> {
     let mut used = vec![false; sc.rules.len()];
     let mut occ = vec![0usize; sc.rules.len()];
     let (mut forged, mut seq_shift, mut inserted_cert) = (false, 0u16, false);
+    let mut pending_shift = 0u16;
+    let mut done2 = vec![false; sc.rules.len()];
     let mut held: (Option<Vec<u8>>, Option<Vec<u8>>) = (None, None);
     let mut randoms = (vec![], vec![]);
     let mut guard = 0;
     let mut ticks = 0;
     let (mut trailing_done, mut late_retransmit) = (false, false);
+    // genuine clear-text handshake bodies seen so far (by type), for replaying them where they do not belong
+    let mut seen: std::collections::BTreeMap<u8, Vec<u8>> = std::collections::BTreeMap::new();
+    // what the *client* has in its transcript, as far as the proxy can tell (clear-text messages it sent / was given)
+    let mut client_transcript: Vec<u8> = vec![];
+    let atk_secret = p256::SecretKey::from_slice(&atk.key.to_bytes()).ok();
+    let (mut inserted_ske, mut mitm_done, mut bad_cert_to_server) = (false, false, false);
+    let mut mitm_keys: Option<(Vec<u8>, Vec<u8>, Vec<u8>, Vec<u8>, Vec<u8>)> = None; // ms, cwk, swk, civ, siv
     loop {
         if q_cs.is_empty() && q_sc.is_empty() {
             // a held-back (swapped) datagram whose successor never came is released now
@@ -330,8 +340,53 @@ pub async fn run_script_ticks(sc: &Script, max_ticks: u32) -> Option<Outcome> {
                 outs = vec![record_bytes(22, (254, 253), 1, 0, &seal_body(&wk, &wiv, 1, 0, 22, (254, 253), &fin))];
             }
         }
+        // ---- actions that need the session's state
+        let next_seq_of_target: u16 = if from_client { match k { 1 => 0, 16 => 1, _ => 2 } } else { match k { 2 => 0, 11 => 1, 12 => 2, 14 => 3, _ => 4 } } + if from_client { 0 } else { seq_shift };
+        let atk_ske = |cr: &[u8], sr: &[u8]| -> Vec<u8> {
+            // the attacker's own key exchange: its own share, signed with its own key
+            let pubkey = atk_secret.as_ref().map(|k| { use p256::elliptic_curve::sec1::ToEncodedPoint; k.public_key().to_encoded_point(false).as_bytes().to_vec() }).unwrap_or(vec![4; 65]);
+            let mut params = vec![3u8, 0, 23, pubkey.len() as u8]; params.extend_from_slice(&pubkey);
+            let mut m = cr.to_vec(); m.extend_from_slice(sr); m.extend_from_slice(&params);
+            let sig: p256::ecdsa::Signature = atk.key.sign(&m);
+            let der = sig.to_der();
+            let mut b = params; b.extend_from_slice(&[4, 3]); b.extend_from_slice(&(der.as_bytes().len() as u16).to_be_bytes()); b.extend_from_slice(der.as_bytes());
+            b
+        };
+        let body_for = |t: u8, seen: &std::collections::BTreeMap<u8, Vec<u8>>| -> Option<Vec<u8>> { match t {
+            3 => Some(vec![254, 253, 4, 1, 2, 3, 4]), 14 => Some(vec![]), 11 => Some(cert_body(&atk.cert.certificate)),
+            12 => Some(atk_ske(&randoms.0, &randoms.1)),
+            2 => seen.get(&2).map(|b| { let mut b = b.clone(); if b.len() > 12 { b[10] ^= 1; } b }),
+            t => seen.get(&t).cloned() } };
+        let (mut pre, mut post): (Vec<Vec<u8>>, Vec<Vec<u8>>) = (vec![], vec![]);
+        for (i, r) in sc.rules.iter().enumerate() {
+            if r.from_client != from_client || r.typ != k || done2[i] { continue; }
+            match r.act {
+                // a clear-text handshake message of another type, at exactly the message_seq the target expects next, just
+                // before this datagram (each message type is also offered to the role that never receives it)
+                Act::PreInjectHs(t) => {
+                    done2[i] = true;
+                    if let Some(b) = body_for(t, &seen) {
+                        if from_client && t == 11 && sc.se == 'o' { bad_cert_to_server = true; } // ('b' = the attacker's own fingerprint: that one matches)
+                        pre.push(record_bytes(22, (254, 253), 0, 90 + t as u64, &hs_bytes(t, b.len() as u32, next_seq_of_target, 0, &b)));
+                    }
+                }
+                // a further message of the server's flight IN SEQUENCE right after this one; the rest of the flight is renumbered
+                Act::InsertHs(t) if !from_client => {
+                    done2[i] = true;
+                    if let (Some(b), Some(rec)) = (body_for(t, &seen), parse_records(&dg).first().map(|r| (r.vmaj, r.vmin, r.seq))) {
+                        let own_seq = parse_records(&outs[0]).first().and_then(|r| parse_hs(&r.body).first().map(|m| m.seq)).unwrap_or(next_seq_of_target);
+                        post.push(record_bytes(22, (rec.0, rec.1), 0, rec.2 + 60, &hs_bytes(t, b.len() as u32, own_seq + 1 + seq_shift, 0, &b)));
+                        if t == 12 { inserted_ske = true; }
+                        pending_shift += 1;
+                    }
+                }
+                Act::CloseClient => { done2[i] = true; for x in c.close().await { q_cs.push_back(x); } }
+                Act::CloseServer => { done2[i] = true; for x in s.close().await { q_sc.push_back(x); } }
+                _ => {}
+            }
+        }
         // after an inserted message the proxy renumbers the remaining clear-text messages of the server's flight
-        if !from_client && seq_shift > 0 && (k == 12 || k == 14) {
+        if !from_client && seq_shift > 0 && (k == 11 || k == 12 || k == 14) {
             outs = outs.iter().map(|d| {
                 let rs = parse_records(d);
                 match rs.first() {
@@ -341,6 +396,57 @@ pub async fn run_script_ticks(sc: &Script, max_ticks: u32) -> Option<Outcome> {
                     _ => d.clone() } }).collect();
         }
         if !from_client && k == 11 && sc.rules.iter().any(|r| r.act == Act::InsertCert) { seq_shift = 1; inserted_cert = true; }
+        for (n, x) in pre.into_iter().enumerate() { outs.insert(n, x); }
+        outs.extend(post);
+        seq_shift += pending_shift; pending_shift = 0;
+        // bookkeeping: genuine bodies by type; the client's transcript as the proxy sees it
+        if let Some(r) = parse_records(&dg).first() { if r.ctype == 22 && r.epoch == 0 { for m in parse_hs(&r.body) {
+            if m.off == 0 && m.total as usize == m.body.len() { seen.insert(m.typ, m.body.clone()); } } } }
+        if from_client {
+            if let Some(r) = parse_records(&dg).first() { if r.ctype == 22 && r.epoch == 0 { for m in parse_hs(&r.body) {
+                if m.off == 0 && m.total as usize == m.body.len() {
+                    if m.typ == 1 { client_transcript.clear(); }
+                    client_transcript.extend_from_slice(&hs_bytes(m.typ, m.total, m.seq, 0, &m.body));
+                } } } }
+        } else {
+            for d in &outs { if let Some(r) = parse_records(d).first() { if r.ctype == 22 && r.epoch == 0 { for m in parse_hs(&r.body) {
+                if m.off == 0 && m.total as usize == m.body.len() && m.typ != 3 && m.typ != 20 && m.typ != 0 {
+                    client_transcript.extend_from_slice(&hs_bytes(m.typ, m.total, m.seq, 0, &m.body)); } } } } }
+        }
+        // ---- the attacker whose key exchange was inserted finishes the handshake itself (it only ever gets this far if
+        // the client accepted a ServerKeyExchange that the pinned certificate did not sign)
+        if inserted_ske && from_client && k == 16 && mitm_keys.is_none() {
+            if let (Some(sk), Some(cke), Some(logged)) = (atk_secret.as_ref(), seen.get(&16), c.keys.last()) {
+                if let Ok(cpub) = p256::PublicKey::from_sec1_bytes(&cke[1..]) {
+                    let shared = p256::ecdh::diffie_hellman(sk.to_nonzero_scalar(), cpub.as_affine());
+                    let pm = shared.raw_secret_bytes().to_vec();
+                    use sha2::Digest;
+                    let h = sha2::Sha256::digest(&client_transcript);
+                    let mut seed = randoms.0.clone(); seed.extend_from_slice(&randoms.1);
+                    for ms in [prf_sha256(&pm, b"extended master secret", &h, 48), prf_sha256(&pm, b"master secret", &seed, 48)] {
+                        if ms == logged.master_secret {
+                            let mut s2 = randoms.1.clone(); s2.extend_from_slice(&randoms.0);
+                            let kb = prf_sha256(&ms, b"key expansion", &s2, 40);
+                            mitm_keys = Some((ms, kb[0..16].to_vec(), kb[16..32].to_vec(), kb[32..36].to_vec(), kb[36..40].to_vec()));
+                            break;
+                        }
+                    }
+                }
+            }
+        }
+        if !mitm_done && from_client && k == 20 { if let Some((ms, cwk, swk, civ, siv)) = &mitm_keys {
+            if let Some(r) = parse_records(&dg).into_iter().find(|r| r.ctype == 22 && r.epoch == 1) {
+                if let (_, _, Some(fc)) = open_rec(cwk, civ, &r) {
+                    mitm_done = true;
+                    let mut t = client_transcript.clone(); t.extend_from_slice(&fc);
+                    let vd = verify_data(ms, false, &t);
+                    let fin = hs_bytes(20, 12, 4 + seq_shift, 0, &vd);
+                    let ccs = record_bytes(20, (254, 253), 0, 70, &[1]);
+                    let finrec = record_bytes(22, (254, 253), 1, 0, &seal_body(swk, siv, 1, 0, 22, (254, 253), &fin));
+                    for d in [ccs, finrec] { for x in c.inject(&d, c_src).await { q_cs.push_back(x); } }
+                }
+            }
+        } }
         let slot = if from_client { &mut held.0 } else { &mut held.1 };
         if swap { *slot = Some(outs.remove(0)); continue; }
         if let Some(h) = slot.take() { outs.push(h); }
@@ -397,7 +503,19 @@ pub async fn run_script_ticks(sc: &Script, max_ticks: u32) -> Option<Outcome> {
         fails.push((format!("state:watch-channel-differs-from-state:{st}"), text.clone())); } } } }
     if let Some(spy) = spies { if spy.saw_connected() && !matches!(c.ep.letter(), 'C' | 'X') {
         fails.push((format!("state:watch-channel-showed-connected-but-handshake-ended-{}", c.ep.letter()), text.clone())); } }
-    if forged && c.ep.letter() != 'F' { fails.push((format!("role:client:wrong-verify-data-not-rejected:ended-{}", c.ep.letter()), text.clone())); }
+    // Connected ⇒ the share the keys were derived from came in a ServerKeyExchange signed by the pinned certificate
+    // (the LAST key exchange before the derivation, not "some key exchange at some time")
+    if c.ep.letter() == 'C' { if let Some(e) = &c.expected { if let Some(b) = denoted_bytes(e) {
+        let canon = b.iter().map(|x| format!("{x:02X}")).collect::<Vec<_>>().join(":");
+        if !c.key_share_signed_by.contains(&canon) {
+            fails.push((format!("role:client:connected-with-a-key-share-the-pinned-certificate-did-not-sign{}", if mitm_done { ":attacker-completed-the-handshake" } else { "" }), text.clone())); }
+    } } }
+    if inserted_ske && sc.rules.len() == 1 && c.ep.letter() != 'F' {
+        fails.push((format!("role:client:unverified-key-exchange-in-sequence-not-rejected:ended-{}", c.ep.letter()), text.clone())); }
+    if bad_cert_to_server && sc.rules.len() == 1 && s.ep.letter() != 'F' {
+        fails.push((format!("role:server:non-matching-certificate-in-sequence-not-rejected:ended-{}", s.ep.letter()), text.clone())); }
+    // (a client the script closed is Closed, not Failed)
+    if forged && c.ep.letter() != 'F' && !sc.rules.iter().any(|r| r.act == Act::CloseClient) { fails.push((format!("role:client:wrong-verify-data-not-rejected:ended-{}", c.ep.letter()), text.clone())); }
     // (in a multi-fault script the inserted message may never be reached in sequence — then Handshaking is a legitimate end)
     if inserted_cert && c.expected.is_some() && (c.ep.letter() == 'C' || (sc.rules.len() == 1 && c.ep.letter() != 'F')) {
         fails.push((format!("role:client:non-matching-certificate-in-sequence-not-rejected:ended-{}", c.ep.letter()), text.clone()));
@@ -445,6 +563,17 @@ pub fn scripts(thorough: bool, rng: &mut Rng) -> Vec<Script> {
         vec![r(false, 2, Act::PreInject(21))], vec![r(false, 200, Act::PreInject(21))], vec![r(false, 20, Act::PreInject(21))],
         vec![r(true, 16, Act::PreInject(21))], vec![r(true, 200, Act::PreInject(21))], vec![r(true, 20, Act::PreInject(21))],
         vec![r(false, 20, Act::PreInject(22))], vec![r(true, 20, Act::PreInject(22))], vec![r(false, 12, Act::PreInject(20))],
+        // a second in-sequence ServerKeyExchange (the attacker's own share, signed by the attacker) after the genuine,
+        // verified one; a second ServerHello (other random) after the Certificate / after the verified key exchange
+        vec![r(false, 12, Act::InsertHs(12))], vec![r(false, 12, Act::InsertHs(2))], vec![r(false, 11, Act::InsertHs(2))],
+        // every message type offered to the role that never receives it, at the expected message_seq
+        vec![r(true, 1, Act::PreInjectHs(3))], vec![r(true, 1, Act::PreInjectHs(14))],
+        vec![r(true, 16, Act::PreInjectHs(3))], vec![r(true, 16, Act::PreInjectHs(14))], vec![r(true, 16, Act::PreInjectHs(2))],
+        vec![r(true, 16, Act::PreInjectHs(11))], vec![r(true, 16, Act::PreInjectHs(12))],
+        vec![r(false, 2, Act::PreInjectHs(1))], vec![r(false, 11, Act::PreInjectHs(1))], vec![r(false, 200, Act::PreInjectHs(16))],
+        // close() at every stage: before keys, between key derivation and Connected, both roles
+        vec![r(false, 2, Act::CloseClient)], vec![r(false, 14, Act::CloseClient)], vec![r(false, 200, Act::CloseClient)], vec![r(false, 20, Act::CloseClient)],
+        vec![r(true, 16, Act::CloseServer)], vec![r(true, 200, Act::CloseServer)], vec![r(true, 20, Act::CloseServer)],
         vec![r(false, 12, Act::Drop), r(false, 14, Act::SeqMinus1)],
         vec![r(false, 11, Act::Drop), r(false, 12, Act::SeqMinus1)],
     ];
@@ -453,6 +582,8 @@ pub fn scripts(thorough: bool, rng: &mut Rng) -> Vec<Script> {
             else { vec![(*rng.pick(&['o', 'o', 'n', 'b']), *rng.pick(&['n', 'n', 'o', 'b'])), ('o', 'n')] };
         for (ce, se) in combos { let s = Script { ce, se, rules: t.clone() }; if !v.contains(&s) { v.push(s); } }
     }
+    // a server with an expectation is shown a Certificate (the attacker's) in sequence: the one protection the server role has
+    for se in ['o', 'b'] { v.push(Script { ce: 'o', se, rules: vec![r(true, 16, Act::PreInjectHs(11))] }); }
     // expected values that are related to the right fingerprint but are not its canonical text: alone, and under
     // the tamperings that leave the genuine certificate in place
     for ce in EXPECTED_VARIANTS {
